@@ -116,7 +116,13 @@ func longFam(q string, count int) famDesc {
 	case "tags":
 		return famDesc{Pre: "t", Width: 6, Lo: 0, Count: count}
 	case "repos":
-		return famDesc{Pre: "r/n", Width: 5, Lo: 1, Count: count}
+		// the names of a family are fixed-width numbers so that numeric order is byte order:
+		// five digits hold the indices up to 99999, larger families get a sixth
+		w := 5
+		if count+1 > 99999 {
+			w = 6
+		}
+		return famDesc{Pre: "r/n", Width: w, Lo: 1, Count: count}
 	default:
 		// referrers are listed by digest; nothing on the way looks inside one
 		return famDesc{Pre: "sha256:", Width: 6, Lo: 7, Count: count}
